@@ -167,6 +167,30 @@ theorem job_resolves_within_budget (s : St) (l : Lease) :
   have := secretJob_budget (maxRevokeAttempts + 1) s l 0 (by omega) (by unfold maxRevokeAttempts; omega)
   exact ⟨by simpa using this.2.1, this.2.2⟩
 
+/-- **… also when the storage read of the lease entry fails at the moment `OnFailure` wants to mark it**: with `f` such
+failing reads (a storage outage that outlasts the retry budget), whatever the backend does, the job still ends with the
+lease gone from storage or marked irrevocable, after at most `6 + f` backend calls (repair F66: the timer is re-armed). -/
+theorem job_resolves_despite_failing_reads (s : St) (l : Lease) (f : Nat) :
+    let s' := secretJobF (maxRevokeAttempts + 1 + f) s l 0 f
+    s'.calls ≤ s.calls + maxRevokeAttempts + f ∧
+    ((¬ ∃ l' ∈ s'.stored, l'.id = l.id) ∨
+      (l.id ∈ s'.irrevocable ∧ ∃ l' ∈ s'.stored, l'.id = l.id ∧ l'.irrevocable = true)) := by
+  have := secretJobF_budget (maxRevokeAttempts + 1 + f) s l 0 f (by omega) (by unfold maxRevokeAttempts; omega)
+  exact ⟨by simpa using this.2.1, this.2.2⟩
+
+/-- **Finding F66 (repaired)**: the job as it was — on that failing read `OnFailure` just returned. With a backend that
+keeps failing, the lease of this history ends stored, expired, still "pending" (so the tracking invariant holds) and NOT
+irrevocable: its timer has fired and nothing on the node will ever try again. -/
+theorem revoke_retry_dropped_cex :
+    let s0 := (run St.init [.tokCreate 14400 0 true 0, .reg 0 3600 7200 true 1, .setFail .always])
+    let l : Lease := { id := 1, isAuth := false, owner := 0, issue := 1, expiry := some 2, bttl := 3600, bmax := 7200,
+                       emax := 0, renewable := true, irrevocable := false, rootNonExp := false }
+    let s := updatePending (putLease s0 l) l
+    let d := secretJobDrop (maxRevokeAttempts + 1) s l 0
+    (∃ l' ∈ d.stored, l'.id = 1 ∧ l'.irrevocable = false ∧ expired l' 10 = true) ∧ 1 ∈ d.pending ∧ 1 ∉ d.irrevocable ∧
+    (let r := secretJobF (maxRevokeAttempts + 2) s l 0 1; 1 ∈ r.irrevocable ∧ r.calls = 7) := by
+  decide
+
 /-- The timers: when `settle` has run (strategy live, fuel not exhausted), no lease tracked in `pending` is at or past
 its expiry — each expired one was revoked or moved to `irrevocable`. -/
 theorem tick_resolves_expired (fuel : Nat) (s : St) (now : Int) (hfr : s.frozen = false)
